@@ -20,6 +20,7 @@ import (
 	"github.com/go-i2p/common/certificate"
 	"github.com/go-i2p/common/data"
 	"github.com/go-i2p/common/destination"
+	"github.com/go-i2p/common/encrypted_leaseset"
 	"github.com/go-i2p/common/key_certificate"
 	"github.com/go-i2p/common/lease"
 	"github.com/go-i2p/common/lease_set2"
@@ -35,7 +36,7 @@ import (
 	"verif/internal/model"
 )
 
-const rule = "cases: a shared value of each structure type (certificate, key certificate with known, reserved and unknown type codes, keys-and-cert, destination, router identity, router address, RouterInfo, LeaseSet, LeaseSet2 with options and offline block, MetaLeaseSet, EncryptedLeaseSet, offline signature, signature, mapping, lease, Lease2; parsed from a fixed-shape model encoding derived from a seed or (half of the cases) from an encoding drawn from the structure generators of C01/C02 - every key type, flag combination, option set, offline block, lease order -, and for identities / LeaseSet2 / mappings (also with a repeated key) also built through the constructors) x 2..16 goroutines, each running a generated list of 5..40 read-only operations drawn from {every exported argument-free method of the value (serialise, hash, addresses, validate, verify, accessors), size-table lookups, parsing other data, verifying a forged sibling of the shared value (one bit of its serialisation changed; must never verify, whatever was verified before), the base32/base64 codecs, the integer / date / string / hash helpers, constructors of certificates, key certificates, router addresses and leases} with generated runtime.Gosched points behind a start barrier; binary built with -race. Oracle: the race detector reports nothing (a report ends the process and the pending case file is the replay), every concurrent result equals the result of the same operation computed sequentially before the fan-out, and the serialisation is unchanged afterwards. Schedules are sampled, not enumerated. Non-trivial: >= 2 goroutines executed at least one common operation on the same value; distinct by (target, operation lists)."
+const rule = "cases: a shared value of each structure type (certificate, key certificate with known, reserved and unknown type codes, keys-and-cert, destination, router identity, router address, RouterInfo, LeaseSet, LeaseSet2 with options and offline block, MetaLeaseSet, EncryptedLeaseSet, offline signature, signature, mapping, lease, Lease2; parsed from a fixed-shape model encoding derived from a seed or (half of the cases) from an encoding drawn from the structure generators of C01/C02 - every key type, flag combination, option set, offline block, lease order -, and for identities / LeaseSet2 / mappings (also with a repeated key) also built through the constructors) x 2..16 goroutines, each running a generated list of 5..40 read-only operations drawn from {every exported argument-free method of the value (serialise, hash, addresses, validate, verify, accessors), size-table lookups, parsing other data, an attempt to decrypt an EncryptedLeaseSet with a key that does not match, verifying a forged sibling of the shared value (one bit of its serialisation changed; must never verify, whatever was verified before), the base32/base64 codecs, the integer / date / string / hash helpers, constructors of certificates, key certificates, router addresses and leases} with generated runtime.Gosched points behind a start barrier; binary built with -race. Oracle: the race detector reports nothing (a report ends the process and the pending case file is the replay), every concurrent result equals the result of the same operation computed sequentially before the fan-out, and the serialisation is unchanged afterwards. Schedules are sampled, not enumerated. Non-trivial: >= 2 goroutines executed at least one common operation on the same value; distinct by (target, operation lists)."
 
 func TestMain(m *testing.M) {
 	lib.NoSerial = true // shared values reach the goroutines without any method having been called on them
@@ -373,6 +374,21 @@ func operations(v any, target string) []op {
 			return fmt.Sprintf("%d %s %x %v %s", len(rem), a, h[:4], hs, ra.PortString())
 		}},
 		op{"forged-sibling", func() string { return forgedSibling(v, target) }},
+		op{"decrypt-attempt", func() string {
+			// a query that takes arguments: an attempt to decrypt (with a key that does not
+			// match) reads the value and must leave it as it was
+			els, ok := v.(*encrypted_leaseset.EncryptedLeaseSet)
+			if !ok {
+				if ev, isVal := v.(encrypted_leaseset.EncryptedLeaseSet); isVal {
+					els, ok = &ev, true
+				}
+			}
+			if !ok {
+				return "n/a"
+			}
+			ls, err := els.DecryptInnerData(model.Fill(32, 5), model.Fill(32, 6))
+			return fmt.Sprintf("value=%v err=%v", ls != nil, err != nil)
+		}},
 		op{"mapping-other", func() string {
 			m, err := data.GoMapToMapping(map[string]string{"b": "2", "a": "1", "c": ""})
 			if err != nil {
